@@ -216,14 +216,14 @@ def model_check(run, module, cfg_text, must_hold=True, workers=None, timeout=900
     return r
 
 
-def emit_ts(run, module, cfg_text, workers=4, timeout=1800):
+def emit_ts(run, module, cfg_text, workers=4, timeout=1800, extra=None):
     """Emit the transition system of a bounded instance (cached: it does not depend on /repo)."""
     key = spec_hash(module, cfg_text)
     path = os.path.join(CACHE, f"ts-{key}.out")
     if os.path.exists(path) and os.path.getsize(path) > 0 and "Model checking completed" in tail(path, 4000):
         return path, True
     tmp = path + f".{os.getpid()}.tmp"
-    r = tlc(run, module, cfg_text, workers=workers, timeout=timeout, out_file=tmp)
+    r = tlc(run, module, cfg_text, workers=workers, timeout=timeout, out_file=tmp, extra=extra)
     if "Model checking completed. No error has been found." not in r["out"]:
         try:
             os.remove(tmp)
